@@ -11,6 +11,7 @@ T: every call with the POSTs the servers saw (host, method, headers, cookie, bod
    every POST body itself to decide the request kind and whose credentials it carries.
 """
 import datetime
+import os
 import random
 import shutil
 from pathlib import Path
@@ -33,6 +34,15 @@ INVS = ["INVARIANT ProfileIsAnonymous", "INVARIANT ProfileGoesToConfiguredUrl", 
 # the advertised service URL has upper-case characters in its path: a request goes to the URL as advertised
 HOSTURL = {"cfg": "https://cfg.invalid/ofx", "svc": "https://svc.invalid/OFXServer/Stmt.dll"}
 URLHOST = {"https://cfg.invalid/ofx": "cfg", "https://svc.invalid/OFXServer/Stmt.dll": "svc"}
+
+
+def apalache_inductive(ctx):
+    """unbounded: the cookie invariants as an inductive invariant (Apalache, spec/APA_Net.tla on the shared OFXNet module)"""
+    import core
+    core.apalache(ctx, "apalache_inductive_invariant", ["OFXNet.tla", "APA_Net.tla"], "APA_Net",
+                  [("base", "APA_Net", "Init", "IndInv", 0, True), ("step", "APA_Net", "IndInit", "IndInv", 1, True),
+                   ("control-not-inductive-without-JarOK", "APA_Net", "WeakInit", "WeakInv", 1, False),
+                   ("control-init-not-trivial", "APA_Net", "IndInit", "Trivial", 0, False)])
 
 
 def run(ctx):
@@ -59,6 +69,7 @@ def run(ctx):
                   "mode": rnd.choice(["dry", "skip", "normal", "normal"])} for _ in range(rnd.randrange(1, 11))]
         behs.append({"adv": rnd.choice(["cfg", "svc"]), "sets": {"cfg": rnd.random() < 0.6, "svc": rnd.random() < 0.6}, "calls": calls,
                      "nop": [c for c in ("c2", "c3") if rnd.random() < 0.3]})
+    apalache_inductive(ctx)
     net = fakenet.FakeNet()
     net.install()
     evs = []
